@@ -4,6 +4,8 @@ package c09
 import (
 	"bytes"
 	"fmt"
+	"regexp"
+	"runtime"
 	"sync"
 	"testing"
 
@@ -102,52 +104,78 @@ func uniquify(f *recipe.File, nonce int) *recipe.File {
 	return g
 }
 
+// yieldWriter hands the bytes over in small chunks and yields in between, so
+// that another goroutine can run while a Write is in progress.
+type yieldWriter struct{ buf bytes.Buffer }
+
+func (w *yieldWriter) Write(p []byte) (int, error) {
+	n := len(p)
+	for len(p) > 0 {
+		k := 64
+		if k > len(p) {
+			k = len(p)
+		}
+		w.buf.Write(p[:k])
+		p = p[k:]
+		runtime.Gosched()
+	}
+	return n, nil
+}
+
+func renderYield(f *jen.File) string {
+	var out string
+	if err := hx.Safe(func() error {
+		w := &yieldWriter{}
+		if err := f.Render(w); err != nil {
+			out = "ERROR: " + err.Error()
+		} else {
+			out = "OK:" + w.buf.String()
+		}
+		return nil
+	}); err != nil {
+		return "PANIC: " + err.Error()
+	}
+	return out
+}
+
+var nonceRe = regexp.MustCompile(`n[0-9]+\.example/`)
+
+// norm removes the per-phase nonce from an output.
+func norm(s string) string { return nonceRe.ReplaceAllString(s, "nX.example/") }
+
 func check(c Case) error {
 	n := len(c.Jobs)
-	jobs := make([]*recipe.File, n)
-	for i, j := range c.Jobs {
-		jobs[i] = uniquify(j, c.Nonce)
-	}
-	var conc [][]string
-	if !c.Shared {
-		// concurrently first, on n goroutines released together: a cold start for these paths
-		for round := 0; round < c.Rounds; round++ {
-			got := make([]string, n)
-			var wg sync.WaitGroup
-			start := make(chan struct{})
-			for i := range jobs {
-				wg.Add(1)
-				go func(i int) {
-					defer wg.Done()
-					<-start
-					got[i] = renderFile((&recipe.Builder{}).File(jobs[i]))
-				}(i)
+	// Every phase works on its own copy of the job set whose non-std paths carry a nonce unique
+	// to (case, phase[, job]): each phase is the first time the process sees those paths, so
+	// process-wide state left behind by one phase cannot make the next one look consistent.
+	// Outputs are compared after the nonce has been normalised away.
+	phase := 0
+	fresh := func(perJob bool) []*recipe.File {
+		phase++
+		out := make([]*recipe.File, n)
+		for i, j := range c.Jobs {
+			nonce := c.Nonce*64 + phase*2
+			if perJob {
+				nonce = (c.Nonce*64+phase*2+1)*32 + i
 			}
-			close(start)
-			wg.Wait()
-			conc = append(conc, got)
+			out[i] = uniquify(j, nonce)
 		}
+		return out
 	}
-	// solo reference: every job built from unshared copies, alone
+	// solo reference: every job alone, built from unshared copies, with paths no other job shares
 	ref := make([]string, n)
-	for i, j := range jobs {
-		ref[i] = renderFile((&recipe.Builder{}).File(stripRefs(j)))
+	for i, j := range fresh(true) {
+		ref[i] = norm(renderFile((&recipe.Builder{}).File(stripRefs(j))))
 	}
 	cmp := func(schedule string, i int, got string) error {
-		if got != ref[i] {
-			return fmt.Errorf("%s: job %d renders differently from its solo reference\n--- solo ---\n%s\n--- %s ---\n%s", schedule, i, ref[i], schedule, got)
+		if norm(got) != ref[i] {
+			return fmt.Errorf("%s: job %d renders differently from its solo reference (paths shown with their per-phase nonce removed)\n--- solo ---\n%s\n--- %s ---\n%s", schedule, i, ref[i], schedule, norm(got))
 		}
 		return nil
 	}
-	for round, got := range conc {
-		for i := range got {
-			if err := cmp(fmt.Sprintf("concurrent round %d", round), i, got[i]); err != nil {
-				return err
-			}
-		}
-	}
 	if c.Shared {
 		// one builder for all Files: nodes with the same Ref are the same Code value in every File
+		jobs := fresh(false)
 		b := &recipe.Builder{}
 		files := make([]*jen.File, n)
 		for i, j := range jobs {
@@ -162,8 +190,31 @@ func check(c Case) error {
 		}
 		return nil
 	}
+	// concurrently, on n goroutines released together
+	for round := 0; round < c.Rounds; round++ {
+		jobs := fresh(false)
+		got := make([]string, n)
+		var wg sync.WaitGroup
+		start := make(chan struct{})
+		for i := range jobs {
+			wg.Add(1)
+			go func(i int) {
+				defer wg.Done()
+				<-start
+				got[i] = renderYield((&recipe.Builder{}).File(jobs[i]))
+			}(i)
+		}
+		close(start)
+		wg.Wait()
+		for i := range got {
+			if err := cmp(fmt.Sprintf("concurrent round %d", round), i, got[i]); err != nil {
+				return err
+			}
+		}
+	}
 	for pi, perm := range c.Perms {
 		// build all, then render all
+		jobs := fresh(false)
 		files := make([]*jen.File, n)
 		for _, i := range perm {
 			files[i%n] = (&recipe.Builder{}).File(jobs[i%n])
@@ -175,6 +226,7 @@ func check(c Case) error {
 			}
 		}
 		// alternate build / render
+		jobs = fresh(false)
 		for _, i := range perm {
 			i %= n
 			if err := cmp(fmt.Sprintf("permutation %d: build and render alternating", pi), i, renderFile((&recipe.Builder{}).File(jobs[i]))); err != nil {
@@ -186,6 +238,14 @@ func check(c Case) error {
 }
 
 func genJob(t *rapid.T) *recipe.File {
+	f := genJob0(t)
+	if rapid.IntRange(0, 2).Draw(t, "noformat") == 0 {
+		f.Ops = append(f.Ops, recipe.FileOp{Op: "NoFormat"})
+	}
+	return f
+}
+
+func genJob0(t *rapid.T) *recipe.File {
 	switch rapid.IntRange(0, 3).Draw(t, "jobkind") {
 	case 0:
 		sc := imps.Gen(imps.Profile{MaxPaths: 8, Compete: true, Std: true, Anon: true, Dots: 1})(t)
@@ -220,15 +280,15 @@ func perms(t *rapid.T, n, k int) [][]int {
 func TestC09(t *testing.T) {
 	r := hx.Start(t, "C09")
 	defer r.Finish(t)
-	rounds := 20
+	rounds := 8
 	if r.Thorough() {
-		rounds = 200
+		rounds = 60
 	}
 	r.Rule(fmt.Sprintf("rapid-generated sets of 4..16 jobs (File recipes from the import-scenario generator with competing names, plausible programs, random DSL trees); every job is rendered alone (reference), then all jobs sequentially in 3 random permutations (build all then render all; build and render alternating), then concurrently on one goroutine per job released by a barrier, %d rounds, the test binary being built with -race; and sets of 2..3 Files with different prefix / hints / local path that share sub-statements (the same Code value added to each), rendered one after another in random orders and compared with the same Files built from unshared copies; non-trivial = >= 2 jobs that register imports; distinct by job set", rounds))
 	r.Assume("goroutine interleavings are sampled by the Go scheduler, not enumerated; the sequential-history part is deterministic")
 	hx.Rapid(r, t, hx.Check[Case]{Name: "independent_jobs", Fn: func(c Case) error { r.Checkpoint("independent_jobs", c); return check(c) }}, r.N(60, 300), func(rt *rapid.T) Case {
 		n := rapid.IntRange(4, 16).Draw(rt, "njobs")
-		c := Case{Rounds: rounds, Nonce: rapid.IntRange(0, 1<<30).Draw(rt, "nonce")}
+		c := Case{Rounds: rounds, Nonce: rapid.IntRange(0, 1<<20).Draw(rt, "nonce")}
 		for i := 0; i < n; i++ {
 			c.Jobs = append(c.Jobs, genJob(rt))
 		}
@@ -259,7 +319,7 @@ func TestC09(t *testing.T) {
 			shared = append(shared, n)
 		}
 		nf := rapid.IntRange(2, 3).Draw(rt, "nfiles")
-		c := Case{Shared: true, Nonce: rapid.IntRange(0, 1<<30).Draw(rt, "nonce")}
+		c := Case{Shared: true, Nonce: rapid.IntRange(0, 1<<20).Draw(rt, "nonce")}
 		for i := 0; i < nf; i++ {
 			f := gen.FileSettings(rt)
 			if rapid.Bool().Draw(rt, "localctor") {
